@@ -98,6 +98,8 @@ struct Chan {
 }
 
 struct RandomSrc {
+    /// percentage of Yield among the actions of a task
+    yield_pct: u32,
     rng: StdRng,
     budget: usize,
     max_tasks: usize,
@@ -297,8 +299,11 @@ impl TaskFut {
                 }
                 let nchan = wm.chans.len() - 1;
                 loop {
-                    let a = match r.rng.gen_range(0..100) {
-                        0..=21 => Act::Yield,
+                    if r.rng.gen_range(0..100) < r.yield_pct {
+                        wm.left[id] -= 1;
+                        return Some((Act::Yield, false));
+                    }
+                    let a = match r.rng.gen_range(22..100) {
                         22..=39 => Act::Wait(r.rng.gen_range(1..=nchan)),
                         40..=57 => Act::Signal(r.rng.gen_range(1..=nchan)),
                         58..=69 => {
@@ -674,11 +679,21 @@ struct RandParams {
 fn run_random(sd: u64, p: &RandParams) -> Vec<Evt> {
     let mut rng = StdRng::seed_from_u64(sd);
     let inner = StdRng::seed_from_u64(rng.r#gen());
+    // three profiles: plain; tasks re-woken from outside much more often; and
+    // few self-re-waking tasks that are also re-woken from outside all the
+    // time (a woken task that is woken again must keep its turn, and others
+    // that keep re-waking themselves must not starve it)
+    let profile = rng.gen_range(0..3);
+    let (yield_pct, kick_upto) = match profile {
+        0 => (22, 16),
+        1 => (22, 45),
+        _ => (65, 50),
+    };
     let w = new_world(
         p.chans,
-        Source::Random(RandomSrc { rng: inner, budget: p.budget, max_tasks: p.tasks, pinned: p.pinned }),
+        Source::Random(RandomSrc { yield_pct, rng: inner, budget: p.budget, max_tasks: p.tasks, pinned: p.pinned }),
     );
-    let max_roots = rng.gen_range(1..=p.tasks.min(4));
+    let max_roots = if profile == 2 { rng.gen_range(2..=3.min(p.tasks)) } else { rng.gen_range(1..=p.tasks.min(4)) };
     let mut roots = 0;
     let mut stalled = 0;
     for _ in 0..p.steps {
@@ -696,11 +711,11 @@ fn run_random(sd: u64, p: &RandParams) -> Vec<Evt> {
             let rl = !(p.pinned && rng.gen_range(0..4) == 0);
             do_spawn(&w, 0, rl);
             true
-        } else if x < 16 && !can_kick.is_empty() {
+        } else if x < kick_upto && !can_kick.is_empty() {
             do_kick(&w, 0, can_kick[rng.gen_range(0..can_kick.len())])
-        } else if x < 22 && !can_try.is_empty() {
+        } else if x < kick_upto + 6 && !can_try.is_empty() {
             do_try(&w, can_try[rng.gen_range(0..can_try.len())])
-        } else if x < 40 {
+        } else if x < kick_upto + 18 {
             stalled += 1;
             do_run(&w)
         } else {
